@@ -305,18 +305,7 @@ func (interp *Interpreter) cfg(root *node, sc *scope, importPath, pkgName string
 				}
 			}
 
-			// Pre-define symbols for labels defined in this block, so we are sure that
-			// they are already defined when met.
-			// TODO(marc): labels must be stored outside of symbols to avoid collisions.
-			for _, c := range n.child {
-				if c.kind != labeledStmt {
-					continue
-				}
-				label := c.child[0].ident
-				sym := &symbol{kind: labelSym, node: c, index: -1}
-				sc.sym[label] = sym
-				c.sym = sym
-			}
+			declareLabels(sc, n)
 			// If block is the body of a function, get declared variables in current scope.
 			// This is done in order to add the func signature symbols into sc.sym,
 			// as we will need them in post-processing.
@@ -325,6 +314,10 @@ func (interp *Interpreter) cfg(root *node, sc *scope, importPath, pkgName string
 					sc.sym[k] = v
 				}
 			}
+
+		case caseBody:
+			// The body of a case clause is a block: it can define labels too.
+			declareLabels(sc, n)
 
 		case breakStmt, continueStmt, gotoStmt:
 			if len(n.child) == 0 {
@@ -377,9 +370,11 @@ func (interp *Interpreter) cfg(root *node, sc *scope, importPath, pkgName string
 
 		case commClauseDefault:
 			sc = sc.pushBloc()
+			declareLabels(sc, n)
 
 		case commClause:
 			sc = sc.pushBloc()
+			declareLabels(sc, n)
 			if len(n.child) > 0 && n.child[0].action == aAssign {
 				ch := n.child[0].child[1].child[0]
 				var typ *itype
@@ -2777,6 +2772,21 @@ func setFNext(cond, next *node) {
 		return
 	}
 	cond.fnext = next
+}
+
+// declareLabels pre-defines the symbols of the labels defined in block n, so we are sure
+// that they are already defined when met.
+// TODO(marc): labels must be stored outside of symbols to avoid collisions.
+func declareLabels(sc *scope, n *node) {
+	for _, c := range n.child {
+		if c.kind != labeledStmt {
+			continue
+		}
+		label := c.child[0].ident
+		sym := &symbol{kind: labelSym, node: c, index: -1}
+		sc.sym[label] = sym
+		c.sym = sym
+	}
 }
 
 // wireSwitchHeader chains the init statement and the tag expression of switch statement n,
